@@ -6,7 +6,7 @@ use crate::drive::{panic_msg, HErr2, Obs, Sample};
 use crate::ent::HErr;
 use crate::oracle::serve::Finding;
 use crate::report::{hash_of, par_for, threads, Run, Stats, Tier};
-use crate::sched::{self, End, Opt, Point, Sched, Step};
+use crate::sched::{self, End, Point, Sched, Step};
 use crate::vbuf::{content_byte, VBuf};
 use bytes::Buf;
 use http_body::Body as _;
@@ -113,7 +113,7 @@ const HORIZON: usize = 400;
 
 /// One execution under the choice vector `prefix` (then default answer 0 everywhere).
 pub fn run_once(setup: &Setup, prefix: &[usize]) -> Exec {
-    let sched = Sched::new(2, setup.spurious, if setup.policy == WakerPolicy::Choose { setup.env } else { 0 });
+    let sched = Sched::new(2, setup.spurious, if setup.policy == WakerPolicy::Choose { setup.env } else { 0 }, prefix, HORIZON);
     let mut rb = http::Request::builder().method("GET").uri("/");
     if setup.gzip {
         rb = rb.header("accept-encoding", "gzip");
@@ -294,22 +294,18 @@ pub fn run_once(setup: &Setup, prefix: &[usize]) -> Exec {
         h.start(1, consumer);
     });
 
-    let mut i = 0usize;
-    let end = loop {
-        let mut choose = |opts: &[Opt]| -> usize {
-            let k = if i < prefix.len() { prefix[i] } else { 0 };
-            assert!(k < opts.len(), "replay divergence: choice {k} of {} at step {i}", opts.len());
-            k
-        };
-        if let Some(e) = sched.step(HORIZON, &mut choose) {
-            break e;
-        }
-        i += 1;
-    };
+    let end = sched.wait_end();
+    let mut wound_down = true;
     if end != End::AllFinished {
-        sched.wait_all_finished();
+        wound_down = sched.wait_all_finished();
     }
-    sched::with_hosts(|h| h.join(2));
+    let mut end = end;
+    if wound_down {
+        sched::with_hosts(|h| h.join(2));
+    } else {
+        sched::abandon_hosts();
+        end = End::Stuck;
+    }
     let (steps, notes) = sched.take_steps();
     let prod = plog.lock().unwrap().clone();
     let cons = clog.lock().unwrap().clone();
@@ -331,6 +327,10 @@ pub fn judge(setup: &Setup, x: &Exec) -> Vec<Finding> {
         }
         End::Horizon => {
             out.push(fnd(&["C10"], "horizon", format!("no termination within {HORIZON} scheduling steps")));
+            return out;
+        }
+        End::Stuck => {
+            out.push(fnd(&["C10", "C11"], "stuck", "a thread ran for 10 s without reaching a scheduling point (spinning, or blocked outside the scheduler's control, e.g. re-locking the mutex it holds)".to_string()));
             return out;
         }
         End::AllFinished => {}
@@ -469,7 +469,7 @@ pub fn explore(setup: &Setup, bound: Option<u32>, cap: u64, each: &mut dyn FnMut
     let mut n = 0u64;
     let mut capped = false;
     while let Some(prefix) = stack.pop() {
-        if n >= cap {
+        if n >= cap || sched::abandon_count() >= 3 {
             capped = true;
             break;
         }
@@ -594,16 +594,45 @@ pub fn families(tier: Tier, for_c11: bool) -> Vec<Family> {
     let mut fams = Vec::new();
     if !for_c11 {
         // raw programs, unbounded preemptions, no environment deviations
-        let n = tier.pick(3, 4);
+        let n = tier.pick(4, 5);
         fams.push(Family { name: "raw/unbounded", setups: programs(&alpha_plain, n).into_iter().map(|p| mk(p, WakerPolicy::Choose, 0, 0, None, false, false)).collect(), bound: None, cap: 200_000 });
         // with spurious re-polls and per-poll waker choice, preemption bound 2
         let n2 = tier.pick(3, 4);
-        fams.push(Family { name: "raw/env-choices/bound2", setups: programs(&alpha_plain, n2).into_iter().map(|p| mk(p, WakerPolicy::Choose, 2, 2, None, false, false)).collect(), bound: Some(tier.pick(1, 2)), cap: 200_000 });
+        fams.push(Family { name: "raw/env-choices/bound2", setups: programs(&alpha_plain, n2).into_iter().map(|p| mk(p, WakerPolicy::Choose, 2, 2, None, false, false)).collect(), bound: Some(2), cap: 200_000 });
         // a fresh waker on every poll
         fams.push(Family { name: "raw/always-fresh", setups: programs(&alpha_plain, tier.pick(3, 4)).into_iter().map(|p| mk(p, WakerPolicy::AlwaysFresh, 1, 0, None, false, false)).collect(), bound: Some(2), cap: 200_000 });
         // longer programs at a small preemption bound
-        let n3 = tier.pick(4, 6);
+        let n3 = tier.pick(5, 6);
         fams.push(Family { name: "raw/long/bound", setups: programs(&alpha_plain, n3).into_iter().filter(|p| p.len() == n3).map(|p| mk(p, WakerPolicy::Choose, 0, 0, None, false, false)).collect(), bound: Some(tier.pick(1, 2)), cap: 50_000 });
+        // periodic programs: a unit repeated 2..5 times (the 3rd, 4th, 5th flush ...), optionally
+        // followed by one more operation, with environment choices
+        {
+            let units: Vec<Vec<POp>> = vec![
+                vec![POp::W(1), POp::F],
+                vec![POp::W(c)],
+                vec![POp::W(1), POp::F, POp::Wait],
+                vec![POp::W(c + 1), POp::F],
+                vec![POp::F, POp::W(1)],
+                vec![POp::W(c), POp::Wait],
+            ];
+            let mut progs: Vec<Vec<POp>> = Vec::new();
+            for u in &units {
+                for k in 2..=tier.pick(4usize, 6) {
+                    let mut p: Vec<POp> = Vec::new();
+                    for _ in 0..k {
+                        p.extend_from_slice(u);
+                    }
+                    progs.push(p.clone());
+                    for tail in [POp::F, POp::W(1), POp::A] {
+                        let mut q = p.clone();
+                        q.push(tail);
+                        progs.push(q);
+                    }
+                }
+            }
+            fams.push(Family { name: "raw/periodic/env", setups: progs.iter().cloned().map(|p| mk(p, WakerPolicy::Choose, 1, 1, None, false, false)).collect(), bound: Some(tier.pick(2, 3)), cap: 100_000 });
+            fams.push(Family { name: "raw/periodic/fresh", setups: progs.into_iter().map(|p| mk(p, WakerPolicy::AlwaysFresh, 1, 0, None, false, false)).collect(), bound: Some(tier.pick(2, 3)), cap: 100_000 });
+        }
         // abort programs
         fams.push(Family { name: "raw/abort", setups: programs(&alpha_abort, tier.pick(3, 4)).into_iter().filter(|p| p.contains(&POp::A)).map(|p| mk(p, WakerPolicy::Choose, 1, 1, None, false, false)).collect(), bound: tier.pick(Some(2), None), cap: 200_000 });
         if tier == Tier::Thorough {
@@ -614,7 +643,7 @@ pub fn families(tier: Tier, for_c11: bool) -> Vec<Family> {
         fams.push(Family { name: "raw/hints", setups: programs(&alpha_abort, tier.pick(2, 3)).into_iter().map(|p| mk(p, WakerPolicy::Choose, 0, 0, None, false, true)).collect(), bound: Some(2), cap: 200_000 });
         // gzip writer: every operation is several critical sections
         let galpha = [POp::W(5), POp::F];
-        fams.push(Family { name: "gzip/bound", setups: programs(&galpha, tier.pick(2, 3)).into_iter().map(|p| mk(p, WakerPolicy::Choose, 1, 1, None, true, false)).collect(), bound: Some(tier.pick(1, 3)), cap: 400_000 });
+        fams.push(Family { name: "gzip/bound", setups: programs(&galpha, tier.pick(2, 3)).into_iter().map(|p| mk(p, WakerPolicy::Choose, 1, 1, None, true, false)).collect(), bound: Some(tier.pick(2, 3)), cap: 400_000 });
     } else {
         fams.push(Family { name: "raw/abort", setups: programs(&alpha_abort, tier.pick(3, 4)).into_iter().filter(|p| p.contains(&POp::A)).map(|p| mk(p, WakerPolicy::Choose, 1, 1, None, false, true)).collect(), bound: Some(2), cap: 200_000 });
         let mut v = Vec::new();
